@@ -1305,8 +1305,8 @@ char* string_print_formatted (char *format_str, int argc, svalue_t * argv) {
               else if (finfo & INFO_T_INT)
                 {		/* one of the integer
                                  * types */
-                  char cheat[8];
-                  char temp[100];
+                  char cheat[32];	/* '%', flag, '.', precision digits, conversion, NUL */
+                  char temp[1100];	/* a double can print more than 300 digits before the point */
 
                   *cheat = '%';
                   i = 1;
@@ -1322,7 +1322,7 @@ char* string_print_formatted (char *format_str, int argc, svalue_t * argv) {
                   if (pres)
                     {
                       cheat[i++] = '.';
-                      sprintf (cheat + i, "%d", pres);
+                      snprintf (cheat + i, sizeof (cheat) - i - 2, "%d", pres);
                       i += (int)strlen (cheat + i);
                     }
                   switch (finfo & INFO_T)
@@ -1359,10 +1359,10 @@ char* string_print_formatted (char *format_str, int argc, svalue_t * argv) {
 
                   if (carg->type == T_REAL)
                     {
-                      sprintf (temp, cheat, carg->u.real);
+                      snprintf (temp, sizeof (temp), cheat, carg->u.real);
                     }
                   else
-                    sprintf (temp, cheat, carg->u.number);
+                    snprintf (temp, sizeof (temp), cheat, carg->u.number);
                   {
                     int tmpl = (int)strlen (temp);
 
